@@ -29,7 +29,7 @@ def check_c16(ctx):
                          'history %s: call %s - %s; wanted root=%s d1=%s d2=%s d3=%s, result shows root=%s d1=%s d2=%s d3=%s; loads=%s pkgcache=%s err=%s' % (
                              names, bad['want']['x'], bad['why'], bad['want']['root'], bad['want']['d1'], bad['want']['d2'], bad['want']['d3'],
                              bad['got']['root'], bad['got']['d1'], bad['got']['d2'], bad['got']['d3'], bad['loads'][:4], bad.get('pkgkeys'), bad['err'][:100]))
-            if len(rep.samples) < 3 and names.count('d1') >= 1 and len(names) >= 4:
+            if len(rep.samples) < 3 and names.count('d1') >= 1 and len(names) >= 3:
                 rep.samples.append({'history': names, 'observed': [s['got'] for s in o['steps']]})
     return rep.finish(
         'model_checking',
